@@ -413,6 +413,8 @@ def range_incl_contains(m, ref, args, t, sp):
         return ("bopq", m.new_name("contains"))
     lo, hi = r.fields[0], r.fields[1]
     if is_float(x):
+        if is_float(lo) and is_float(hi) and F.is_lit(lo) and F.is_lit(hi) and F.litval(lo) == F.litval(hi):
+            return ("fcmp", "Eq", x, hi)        # `(-0.0..=0.0).contains(&x)` is `x == 0.0`
         return ("and", ("fcmp", "Le", lo, x), ("fcmp", "Le", x, hi))
     if is_int(x):
         return ("and", ("icmp", "Le", simp(lo), simp(x)), ("icmp", "Le", simp(x), simp(hi)))
@@ -1316,7 +1318,7 @@ def _bits_pick(m, a, b, want_min, sp):
 def cmp_min2(m, ref, args, t, sp):
     a, b = args
     from machine import VBits
-    if isinstance(a, VBits) and isinstance(b, VBits) and a.signed == b.signed:
+    if isinstance(a, VBits) and isinstance(b, VBits) and a.signed == b.signed and not (a.maybe_nan or b.maybe_nan):
         return _bits_pick(m, a, b, True, sp)
     if isinstance(a, VStruct) and isinstance(b, VStruct) and a.path.endswith("FloatOrd"):
         return _floatord_pick(m, a, b, True, sp)
@@ -1326,7 +1328,7 @@ def cmp_min2(m, ref, args, t, sp):
 def cmp_max2(m, ref, args, t, sp):
     a, b = args
     from machine import VBits
-    if isinstance(a, VBits) and isinstance(b, VBits) and a.signed == b.signed:
+    if isinstance(a, VBits) and isinstance(b, VBits) and a.signed == b.signed and not (a.maybe_nan or b.maybe_nan):
         return _bits_pick(m, a, b, False, sp)
     if isinstance(a, VStruct) and isinstance(b, VStruct) and a.path.endswith("FloatOrd"):
         return _floatord_pick(m, a, b, False, sp)
@@ -2528,15 +2530,15 @@ def f64_to_bits(m, ref, args, t, sp):
     v = load(m, args[0])
     if is_float(v) and F.is_lit(v):
         return v[1]
-    if is_float(v) and m.order.nan_status(v) is False:
+    if is_float(v):
         from machine import VBits
-        return VBits(v, False, m.new_name("bits(%s)" % F.show(v)[:40]))
+        return VBits(v, False, m.new_name("bits(%s)" % F.show(v)[:40]), maybe_nan=m.order.nan_status(v) is not False)
     return VOpaque("int", m.new_name("bits(%s)" % (F.show(v)[:40] if is_float(v) else "?")))
 
 
 def f64_from_bits(m, ref, args, t, sp):
     from machine import VBits
-    if isinstance(args[0], VBits):
+    if isinstance(args[0], VBits) and not args[0].maybe_nan:
         return args[0].src
     v = simp(args[0])
     if isinstance(v, int) and 0 <= v < 2**64:
@@ -2844,16 +2846,17 @@ def float_classify(m, ref, args, t, sp):
         if x == 0:
             return cat(2)
         return cat(3 if abs(x) < 2.2250738585072014e-308 else 4)
-    if m.truth(("isnan", v), sp, "classify"):
+    st = m.order.nan_status(v)
+    if st is True or (st is None and not m.cfg.finite and m.truth(("isnan", v), sp, "classify")):
         return cat(0)
-    if m.truth(("or", ("fcmp", "Eq", v, F.INF), ("fcmp", "Eq", v, F.NINF)), sp, "classify"):
+    if not m.cfg.finite and m.truth(("or", ("fcmp", "Eq", v, F.INF), ("fcmp", "Eq", v, F.NINF)), sp, "classify"):
         return cat(1)
     if m.truth(("fcmp", "Eq", v, F.ZERO), sp, "classify"):
         return cat(2)
-    tiny = F.lit(2.2250738585072014e-308)
-    if m.truth(("and", ("fcmp", "Lt", v, tiny), ("fcmp", "Gt", v, F.mk("neg", tiny))), sp, "classify"):
-        return cat(3)
-    return cat(4)
+    # finite and non-zero: subnormal or normal.  Both are possible for an abstract value; the threshold is not
+    # compared symbolically (a comparison of a weight or an observation with 2.2e-308 would be a scale-dependent
+    # test in the eyes of R-DIM, although telling the two categories apart is the caller's business)
+    return cat(3 if m.choose(2, ("classify-subnormal", sp)) == 1 else 4)
 
 
 def float_is_normal(m, ref, args, t, sp):
@@ -2963,3 +2966,35 @@ def int_checked_mul(m, ref, args, t, sp):
 
 for _t in ("u64", "usize", "u32", "u128", "i64", "i32"):
     BY_NAME["core::num::<impl %s>::checked_mul" % _t] = int_checked_mul
+
+# the free function `core::iter::zip(a, b)` is `a.into_iter().zip(b)`
+BY_NAME["core::iter::adapters::zip::zip"] = iter_zip
+BY_NAME["core::iter::zip"] = iter_zip
+
+
+def iter_successors(m, ref, args, t, sp):
+    """core::iter::successors(first, f): first, f(&first), f(&that), ... until None"""
+    return VModel("successors", cur=args[0], f=args[1])
+
+
+_model_next_k = model_next
+
+
+def model_next(m, it, sp, item_ty=None):
+    if it.kind == "successors":
+        cur = it.st["cur"]
+        if not (isinstance(cur, VStruct) and cur.path == OPTION):
+            raise Unsupported("successors state")
+        if cur.variant == 0:
+            return None
+        x = cur.fields[0]
+        nxt = m.call_closure(it.st["f"], [VRef(Cell(x), (), False)], sp)
+        if not (isinstance(nxt, VStruct) and nxt.path == OPTION):
+            raise Unsupported("successors closure result")
+        it.st["cur"] = nxt
+        return x
+    return _model_next_k(m, it, sp, item_ty)
+
+
+BY_NAME["core::iter::sources::successors::successors"] = iter_successors
+BY_NAME["core::iter::successors"] = iter_successors
